@@ -1,7 +1,7 @@
 (* C05/Check.v — one harness case -> failed judgement codes (executable only).
 
    Case layouts (first item = tag, parsed with pint):
-   1 OSM     : cfg  v(osm value)  merr tree  uerr  opt(decoded osm value)
+   1 OSM     : cfg  v(osm value)  merr tree  uerr  opt(decoded osm value)  marshalJSON-calls(-1 = not observed)
    2 ELEMENT : kind v             merr tree  uerr  opt(decoded value)
    3 DOC     : cfg  doc(tree)  opt(expected osm value)  uerr  opt(decoded osm value)
    4 CHANGE  : cfg  v(change value) merr tree uerr opt(decoded change value)
@@ -75,15 +75,19 @@ Definition cmp_res {A} (r : res A) (uerr : bool) (obs : option A) (eqv : A -> A 
 
 Definition std := @sort_kv string.
 
+(* the number of marshalJSON calls seen by the installed (counting) codec; -1 = not observed
+   (default configuration) *)
+Definition calls_ok (observed model : Z) : bool := (observed <? 0) || (observed =? model).
+
 (* ---- 1 OSM ---- *)
 Definition check_osm : P (list Z) :=
-  _cfg <- pint ;; v <- pv ;; merr <- pbool ;; tree <- pj ;; uerr <- pbool ;; dv <- popt pv ;;
+  _cfg <- pint ;; v <- pv ;; merr <- pbool ;; tree <- pj ;; uerr <- pbool ;; dv <- popt pv ;; mc <- pint ;;
   match osm_of_val v with
   | None => ret [0]
   | Some o =>
       let od := match dv with Some d => osm_of_val d | None => None end in
       let dom := code_if (wf_osm o) 3 in
-      let j1m := code_if (negb merr && json_equivb (osm_marshal std o) tree) 1 in
+      let j1m := code_if (negb merr && json_equivb (osm_marshal std o) tree && calls_ok mc (osm_mcalls o)) 1 in
       let j1u := cmp_res (osm_unmarshal tree) uerr od osm_equivb in
       let j2 := code_if (negb merr && osmjson_shape tree && negb uerr
                          && match od with Some d => osm_equivb d o | None => false end) 2 in
@@ -95,12 +99,12 @@ Definition elem_ty (k : Z) : option ty :=
   nth_error [t_Node; t_Way; t_Relation; t_Changeset; t_Note; t_User; t_Bounds] (Z.to_nat k).
 
 Definition check_elem : P (list Z) :=
-  k <- pint ;; v <- pv ;; merr <- pbool ;; tree <- pj ;; uerr <- pbool ;; dv <- popt pv ;;
+  k <- pint ;; v <- pv ;; merr <- pbool ;; tree <- pj ;; uerr <- pbool ;; dv <- popt pv ;; mc <- pint ;;
   match elem_ty k with
   | None => ret [0]
   | Some t =>
       let dom := code_if (wf t v) 3 in
-      let j1m := code_if (negb merr && json_equivb (enc std t v) tree) 1 in
+      let j1m := code_if (negb merr && json_equivb (enc std t v) tree && calls_ok mc (mcalls t v)) 1 in
       let j1u := cmp_res (dec t tree) uerr dv (equivb t) in
       let j2 := code_if (negb merr && (if k =? 6 then true else element_shape tree) && negb uerr
                          && match dv with Some d => equivb t d v | None => false end) 2 in
@@ -155,13 +159,14 @@ Definition change_equivb (a b : changev) : bool :=
 Definition oo_wf (a : option osmv) : bool := match a with Some o => wf_osm o | None => true end.
 
 Definition check_change : P (list Z) :=
-  _cfg <- pint ;; v <- pv ;; merr <- pbool ;; tree <- pj ;; uerr <- pbool ;; dv <- popt pv ;;
+  _cfg <- pint ;; v <- pv ;; merr <- pbool ;; tree <- pj ;; uerr <- pbool ;; dv <- popt pv ;; mc <- pint ;;
   match change_of_val v with
   | None => ret [0]
   | Some c =>
       let cd := match dv with Some d => change_of_val d | None => None end in
       let dom := code_if (oo_wf (c_create c) && oo_wf (c_modify c) && oo_wf (c_delete c)) 3 in
-      let j1m := code_if (negb merr && json_equivb (change_marshal std c) tree) 1 in
+      let j1m := code_if (negb merr && json_equivb (change_marshal std c) tree
+                          && calls_ok mc (oo_mcalls (c_create c) + oo_mcalls (c_modify c) + oo_mcalls (c_delete c))) 1 in
       let j1u := cmp_res (change_unmarshal tree) uerr cd change_equivb in
       let shape (k : string) :=
         match tree with
@@ -286,11 +291,11 @@ Definition check_big : P (list Z) :=
    and the shape of the output only; no round-trip claim (Properties:
    C05_roundtrip_with_duplicate_tag_keys_refuted) ---- *)
 Definition check_elem_model_only : P (list Z) :=
-  k <- pint ;; v <- pv ;; merr <- pbool ;; tree <- pj ;; uerr <- pbool ;; dv <- popt pv ;;
+  k <- pint ;; v <- pv ;; merr <- pbool ;; tree <- pj ;; uerr <- pbool ;; dv <- popt pv ;; mc <- pint ;;
   match elem_ty k with
   | None => ret [0]
   | Some t =>
-      let j1m := code_if (negb merr && json_equivb (enc std t v) tree) 1 in
+      let j1m := code_if (negb merr && json_equivb (enc std t v) tree && calls_ok mc (mcalls t v)) 1 in
       let j1u := cmp_res (dec t tree) uerr dv (equivb t) in
       let j2 := code_if (negb merr && (if k =? 6 then true else element_shape tree) && negb uerr) 2 in
       ret (j1m ++ j1u ++ j2)%list
